@@ -79,10 +79,10 @@ class Metadata(Facet):
     reps = ("tree", "ge", "sge", "dsge")
 
     def budget(self, tier):
-        return (80, 8) if tier == "quick" else (500, 16)
+        return (120, 8) if tier == "quick" else (300, 16)
 
     def strategy(self, tier):
-        return world_cases(self.flags, reps=self.reps, deciders=("maxdepth", "full", "pigrow", "progressive"), max_ops=8, depth_extras=(1, 2, 3, 4))
+        return world_cases(self.flags, reps=self.reps, deciders=("maxdepth", "full", "pigrow", "progressive"), max_ops=8, depth_extras=(1, 2, 3))
 
     def run(self, case, rec):
         try:
